@@ -166,33 +166,6 @@ macro_rules! h_parse_mb {
     };
 }
 
-/// Long strings around the inline limit of `Bv`: only three characters (first, middle,
-/// last) are symbolic ASCII, the others are fixed digits (`$fill`), which keeps the query
-/// small while the dispatch by string length, the capacity boundary, the error index and
-/// the placement of the first / last digit are still decided for these lengths.
-macro_rules! h_parse_sparse {
-    ($name:ident, $unw:literal, $T:ty, $f:ident, $scan:ident, $bits:literal, $n:literal, $fill:literal, $cap:expr) => {
-        harness!($name, $unw, {
-            let mut b = [$fill; $n];
-            let c0 = nd::u8();
-            let c1 = nd::u8();
-            let c2 = nd::u8();
-            nd::assume(c0 < 128 && c1 < 128 && c2 < 128);
-            b[0] = c0;
-            b[$n / 2] = c1;
-            b[$n - 1] = c2;
-            let sc = $scan(&b[..], $n);
-            let s: &str = unsafe { std::str::from_utf8_unchecked(&b[..]) };
-            w!(sc.bad == $n, "every character is a digit");
-            w!(sc.bad == $n && c0 == b'0', "all digits with a leading zero");
-            w!(sc.bad + 1 == $n, "only the last character offends");
-            w!(sc.bad == $n / 2, "the middle character is the first offender");
-            let r = <$T>::$f(s);
-            judge!(r, $n, $bits, $cap, sc.bad, sc.val);
-        });
-    };
-}
-
 // ==== from_binary, ASCII ======================================================================
 h_parse!(c15_q_bin_f8x1_n0, 3, Bvf<u8, 1>, from_binary, scan_bin, 1, 0, 8);
 h_parse!(c15_q_bin_f8x1_n1, 4, Bvf<u8, 1>, from_binary, scan_bin, 1, 1, 8);
@@ -310,12 +283,3 @@ h_parse_mb!(c15_q_hexmb3_f16x1_n2, 8, Bvf<u16, 1>, from_hex, scan_hex, 4, 2, 3, 
 h_parse_mb!(c15_t_hexmb3_f16x1_n3, 9, Bvf<u16, 1>, from_hex, scan_hex, 4, 3, 3, 6, 16);
 h_parse_mb!(c15_t_hexmb3_f16x1_n4, 10, Bvf<u16, 1>, from_hex, scan_hex, 4, 4, 3, 7, 16);
 h_parse_mb!(c15_t_binmb2_bv_n4, 9, Bv, from_binary, scan_bin, 1, 4, 2, 6, NOCAP);
-// ==== around the inline limit of Bv and the capacity of Bvf<u64,2> (three symbolic characters) ===========
-h_parse_sparse!(c15_t_sparse_hex_bv_n32, 36, Bv, from_hex, scan_hex, 4, 32, b'a', NOCAP);
-h_parse_sparse!(c15_t_sparse_hex_bv_n33, 37, Bv, from_hex, scan_hex, 4, 33, b'a', NOCAP);
-h_parse_sparse!(c15_t_sparse_bin_bv_n128, 132, Bv, from_binary, scan_bin, 1, 128, b'1', NOCAP);
-h_parse_sparse!(c15_t_sparse_bin_bv_n129, 133, Bv, from_binary, scan_bin, 1, 129, b'1', NOCAP);
-h_parse_sparse!(c15_t_sparse_hex_f64x2_n32, 36, Bvf<u64, 2>, from_hex, scan_hex, 4, 32, b'a', 128);
-h_parse_sparse!(c15_t_sparse_hex_f64x2_n33, 37, Bvf<u64, 2>, from_hex, scan_hex, 4, 33, b'a', 128);
-h_parse_sparse!(c15_t_sparse_bin_f64x2_n128, 132, Bvf<u64, 2>, from_binary, scan_bin, 1, 128, b'1', 128);
-h_parse_sparse!(c15_t_sparse_bin_f64x2_n129, 133, Bvf<u64, 2>, from_binary, scan_bin, 1, 129, b'1', 128);
